@@ -35,7 +35,7 @@ def idsOf (l : List Utxo) : String := if l.isEmpty then "none" else ",".intercal
 def errName : Err → String
   | .noUtxos => "no-utxos" | .notEnough => "not-enough" | .outputsGreater => "outputs-greater"
   | .multiChange => "multi-change" | .notBalanced => "not-balanced" | .feeLow => "fee-low" | .feeHigh => "fee-high"
-  | .badRandom => "bad-random"
+  | .badRandom => "bad-random" | .duplicateInput => "duplicate-input"
 
 def handleTxCreate (_D : Dev) : List String → Option String
   | ["txc_size", txwt, kind, nIns, outLens, nChange] => do
